@@ -35,7 +35,7 @@ LEVEL = "exploration"
 RULE = (
     "mix: an entry point is drawn from the derived list (every vp.ir op-table entry of arity 2, 3 or list, every "
     "cubed.Array dunder taking `other` (forward, reflected, and the in-place operator forms), plus clip with array "
-    "bounds, diff with prepend/append arrays, take/__getitem__ with a cubed index, cubed.compute/plan/visualize of "
+    "bounds, where with one scalar branch, diff with prepend/append arrays, take/__getitem__ with a cubed index, cubed.compute/plan/visualize of "
     "several arrays, cubed.store of several sources (computed and compute=False) and to_zarr of a combination); "
     "arguments are generated so that the call is valid (shapes, dtypes, chunks per entry point; optionally each "
     "argument is first passed through a one-array operation so that plans are not trivial); two Specs are drawn equal "
@@ -817,7 +817,10 @@ _ROOT = None
 def _root():
     global _ROOT
     if _ROOT is None or not os.path.isdir(_ROOT):
+        import atexit
+
         _ROOT = tempfile.mkdtemp(prefix="vp-c18-")
+        atexit.register(shutil.rmtree, _ROOT, ignore_errors=True)  # safety net; shards remove it themselves
     return _ROOT
 
 
